@@ -63,6 +63,7 @@ import (
 	"fmt"
 	"os"
 	"path/filepath"
+	"regexp"
 	"runtime/debug"
 	"strings"
 	"testing"
@@ -478,11 +479,14 @@ func c22errClass(err error) string {
 	if errors.As(err, &abe) {
 		return "asset balance too low"
 	}
-	if len(m) > 40 {
-		m = m[:40]
+	m = c22idPattern.ReplaceAllString(m, "<id>") // transaction ids / addresses would make every message distinct
+	if len(m) > 60 {
+		m = m[:60]
 	}
 	return m
 }
+
+var c22idPattern = regexp.MustCompile(`[A-Z2-7]{52,58}`)
 
 func (s *c22sys) apply(opi int) (bool, error) {
 	o := s.e.ops[opi]
